@@ -54,6 +54,8 @@ def cases(tier, seed):
             rnd.shuffle(t3)
             for s, d in t3[:10]:
                 out.append(('move', (sh,), s, d))
+            for s, d in t3[10:14]:
+                out.append(('move', (sh,), s, d, 'list'))
         for f, l in itertools.product(range(-r, r), repeat=2):
             out.append(('ravel', (sh,), f, l))
     for tr in [((2, 3), (3, 2, 2)), ((3,), (2, 3)), ((2, 2), (2, 2, 3))]:
@@ -118,6 +120,8 @@ def _make(key):
     kind, shapes = key[0], key[1]
     ins = _ins(shapes)
     if kind == 'move':
+        if len(key) > 4:  # the same axes given as lists (any sequence is a legal argument)
+            return lambda: MoveAxisOperator(list(key[2]), list(key[3]), in_structure=ins)
         return lambda: MoveAxisOperator(key[2], key[3], in_structure=ins)
     if kind == 'ravel':
         return lambda: RavelOperator(key[2], key[3], in_structure=ins)
